@@ -450,8 +450,89 @@ def cycle_case(sink, seed, idx):  # noqa: C901
     sink.case(harness.fp('cycle', route, idx % 22), True, ident if idx < len(CYCLE_ROUTES) else None)
 
 
+def failed_op_retention_case(sink, seed, idx):  # noqa: C901
+    """Operations that FAIL (mismatching second tree, a callback that raises) must not keep any part of their operands alive either."""
+    rng = gen.case_rng(seed, 'c14ret', idx)
+
+    class Box(U.CBase):  # weak-referenceable containers
+        __slots__ = ()
+
+    ns = f'c14ret{idx % 7}'
+    try:
+        optree.register_pytree_node(Box, lambda o: (tuple(o.kids), None, None), lambda m, c: Box(c), namespace=ns)
+    except ValueError:
+        pass
+
+    def build(mismatch_at):
+        """[[Box(a, b), Box(c)], [...], ...] - the branch `mismatch_at` has one child too many; returns (tree, weak refs of everything weakref-able)."""
+        refs, rows = [], []
+        for r in range(4):
+            kids = [U.Leaf((r, j)) for j in range(2 + (1 if r == mismatch_at else 0))]
+            inner = Box([U.Leaf((r, 'x')), {'k': U.Leaf((r, 'y'))}])
+            row = [Box(kids), inner, (U.Leaf((r, 'z')),)]
+            refs += [weakref.ref(x) for x in kids] + [weakref.ref(inner), weakref.ref(row[0]), weakref.ref(inner.kids[0])]
+            rows.append(row)
+        return rows, refs
+
+    at = rng.randrange(4)
+    good, refs_g = build(None)
+    bad, refs_b = build(at)
+    spec = optree.tree_structure(good, namespace=ns)
+
+    class Boom(Exception):
+        pass
+
+    calls = [0]
+    fail_at = rng.randrange(1, 10)
+
+    def raising(*a):
+        calls[0] += 1
+        if calls[0] == fail_at:
+            raise Boom
+        return a[0]
+
+    ops = [
+        ('flatten_up_to', lambda: spec.flatten_up_to(bad)),
+        ('tree_map/mismatching-rest', lambda: optree.tree_map(lambda a, b: a, good, bad, namespace=ns)),
+        ('tree_map_/mismatching-rest', lambda: optree.tree_map_(lambda a, b: a, good, bad, namespace=ns)),
+        ('tree_broadcast_prefix', lambda: optree.tree_broadcast_prefix(good, bad, namespace=ns)),
+        ('broadcast_prefix', lambda: optree.broadcast_prefix(good, bad, namespace=ns)),
+        ('tree_broadcast_common', lambda: optree.tree_broadcast_common(good, bad, namespace=ns)),
+        ('prefix_errors', lambda: optree.prefix_errors(good, bad, namespace=ns)),
+        ('tree_map/raising-f', lambda: optree.tree_map(raising, good, good, namespace=ns)),
+        ('tree_flatten/raising-predicate', lambda: optree.tree_flatten(bad, is_leaf=lambda x: raising(x) and False, namespace=ns)),
+        ('unflatten/raising-iterable', lambda: spec.unflatten(raising(x) for x in optree.tree_leaves(good, namespace=ns))),
+        ('tree_iter/abandoned', lambda: next(optree.tree_iter(bad, namespace=ns))),
+        ('traverse/raising-f_node', lambda: spec.traverse(optree.tree_leaves(good, namespace=ns), raising, None)),
+    ]
+    name, op = ops[idx % len(ops)]
+    calls[0] = 0
+    try:
+        op()
+        outcome = 'returned'
+    except Exception as e:  # noqa: BLE001
+        outcome = type(e).__name__
+        e = None
+    ident = dict(gen='c14ret', seed=seed, index=idx, op=name, mismatch_branch=at, outcome=outcome)
+    del good, bad, spec, op, ops
+    for _ in range(2):
+        gc.collect()
+    alive = [r() for r in refs_g + refs_b if r() is not None]
+    sink.check(not alive, f'retention-after/{name}', 'nothing optree keeps internally holds a reference to the operands of a call that has returned or failed', ident, lambda: [repr(x)[:60] for x in alive][:6])
+    sink.count(f'retention-after:{outcome}')
+    sink.count('failed-op-retention-probes')
+    del alive
+    try:
+        optree.unregister_pytree_node(Box, namespace=ns)
+    except Exception:  # noqa: BLE001
+        pass
+    sink.case(harness.fp('ret', name, at), True, ident if idx < 12 else None)
+
+
 def run_shard(sink, tier, seed, shard):
     i0, step = (shard or {}).get('i', 0), (shard or {}).get('n', 1)
+    for idx in range(i0, harness.scale(480, 12000, tier), step):
+        sink.guard('harness', 'retention', dict(index=idx), lambda: failed_op_retention_case(sink, seed, idx))
     n_cases = harness.scale(500, 3000, tier)
     n_in = harness.scale(500, 60000, tier)
     n_cyc = harness.scale(110, 2200, tier)
@@ -480,6 +561,7 @@ def finalize(sink, tier, seed):
     sink.require('oracle:the treespec keeps describing the structure it was created from', 100)
     sink.require('oracle:no operation mutates its input trees, leaf sequences or operand treespecs', 100)
     sink.require('retention-probes')
+    sink.require('failed-op-retention-probes', 100)
     sink.require('cycle-probes')
     for r in CYCLE_ROUTES:
         sink.require(f'cycle-route:{r}')
